@@ -1166,8 +1166,18 @@ def _decorate_new_with_invariants(new_func: CallableT) -> CallableT:
         if instance.__class__.__init__ is object.__init__ and _is_outermost_new(
             wrapper=wrapper, cls=args[0] if len(args) > 0 else None
         ):
-            for invariant in getattr(instance.__class__, "__invariants__", []):
-                _assert_invariant(contract=invariant, instance=instance)
+            # The checks of the instance are suspended meanwhile, as in the wrapper around a constructor: the methods
+            # which the invariants call on the instance must not check the invariants once more. ``__new__`` may also
+            # hand out an instance which is being checked already (*e.g.*, a singleton looked up in one of its
+            # invariants or methods); the call in progress checks it.
+            id_instance = id(instance)
+            if id_instance not in _IN_PROGRESS.get():
+                flag = _add_in_progress(id_instance)
+                try:
+                    for invariant in getattr(instance.__class__, "__invariants__", []):
+                        _assert_invariant(contract=invariant, instance=instance)
+                finally:
+                    _discard_in_progress(id_instance, flag)
 
         return instance
 
